@@ -579,7 +579,7 @@ def mutate(rng: random.Random, files: List[dict], main: str) -> Optional[Tuple[L
         if not libs:
             return None
         lib = libs[0]
-        bad = {"k": "import", "file": main, "as": "backq"}
+        bad = {"k": "import", "file": rng.choice(["", "./"]) + main, "as": "backq"}
         lib["items"].insert(0, bad)
         return files, "cyclic-import", lib["name"], bad, trad
     if kind == "dup-import":
@@ -587,7 +587,9 @@ def mutate(rng: random.Random, files: List[dict], main: str) -> Optional[Tuple[L
         imps = [i for i in mainf["items"] if i["k"] == "import"]
         if not imps:
             return None
-        bad = {"k": "import", "file": imps[0]["file"], "as": "againq"}
+        # the same FILE, possibly spelled differently (the rule is about files, not about path strings)
+        spell = rng.choice(["{0}", "{0}", "./{0}", "././{0}", "nodir/../{0}" if False else "./{0}"]).format(imps[0]["file"])
+        bad = {"k": "import", "file": spell, "as": "againq"}
         mainf["items"].insert(len(imps), bad)
         return files, "duplicate-import", main, bad, trad
     if kind == "missing-import":
